@@ -16,7 +16,7 @@ PROPS_MODULE = 'SympdeModel.Props.C14'
 RULE = ('random families of real sympde objects (InteriorDomain with/without dim, NCubeInterior, Boundary faces of plain '
         'and mapped patches, Interface, Domain; hygienic unique names, 1D-3D) combined by random nested Union(...) programs '
         '(None members, duplicates, equal copies, nested unions up to depth 3, a stream with mixed dimensions and '
-        'non-domain arguments; a stream of sessions re-using the same names for members of another dimension); every real Union(...) call is one case (arguments serialised as the constructor sees them), '
+        'non-domain arguments; a stream of sessions re-using the same names for members of another dimension, also several times inside one call); every real Union(...) call is one case (arguments serialised as the constructor sees them), '
         'plus per resulting Union object: random operation sequences iter()/next() on several live iterators '
         '(random interleavings and nested-for / zip shaped sequences), complement()/__sub__ with None / member / non-member / '
         'Union / list / int arguments, str(). Non-trivial = the call flattens a Union argument, drops a None or a duplicate, '
@@ -847,10 +847,34 @@ def gen_session(rng, prefix='h'):
             spec = spec[:rng.randint(2, len(spec))]
         if rng.random() < 0.25:
             rng.shuffle(spec)
-        steps.append((kind, spec, rng.choice(['flat', 'flat', 'flat', 'nested', 'none'])))
+        shapes = ['flat', 'flat', 'flat', 'nested', 'none']
+        if rng.random() < 0.35:
+            spec = gen_clash(rng, names, dims, d0, d1)
+            shapes = ['flat', 'flat', 'nested', 'none', 'bydim', 'bydim']
+        steps.append((kind, spec, rng.choice(shapes)))
         if rng.random() < 0.3:
             d0 = d1
     return steps
+
+
+def gen_clash(rng, names, dims, d0, d1):
+    """one name SEVERAL TIMES INSIDE ONE family: members equal by name (== / hash) but created with different
+    dimensions (must be refused: the members given differ in dimension, whatever set() makes of them), or - as the
+    control - created twice with the same dimension (equal copies: accepted, one member per name)"""
+    k = rng.random()
+    if k < 0.2:                                          # one name in 2-3 dimensions, nothing else
+        n = rng.choice(names)
+        spec = [(n, d) for d in rng.sample(dims, rng.randint(2, min(3, len(dims))))]
+    elif k < 0.75:                                       # a family of dimension d0 + some of its names again in d1
+        again = rng.sample(names, rng.randint(1, len(names)))
+        spec = [(n, d0) for n in names] + [(n, d1) for n in again]
+        if rng.random() < 0.3:
+            spec = [x for x in spec if x[1] == d1 or x[0] in again or rng.random() < 0.5]
+    else:                                                # control: equal copies of one dimension
+        spec = [(n, d0) for n in names] + [(n, d0) for n in rng.sample(names, rng.randint(1, len(names)))]
+    if rng.random() < 0.6:
+        rng.shuffle(spec)
+    return spec
 
 
 def run_step(step, m, calls=None):
@@ -874,6 +898,12 @@ def run_step(step, m, calls=None):
             r = call(call(*objs[:2]), *objs[2:])
         elif shape == 'none':
             r = call(None, *objs)
+        elif shape == 'bydim':                           # Union(Union(members of one dimension), Union(of the next), ...)
+            ds = []
+            for _, d in spec:
+                if d not in ds:
+                    ds.append(d)
+            r = call(*[call(*[x for x, (_, d) in zip(objs, spec) if d == d_]) for d_ in ds])
         else:
             r = call(*objs)
     except Raised as e:
@@ -892,6 +922,8 @@ def check_session(o, steps, m, tag):
         hist.append(step_str(step))
         o.count('history:step')
         ds = {d for _, d in spec}
+        if len({n for n, _ in spec}) < len(spec):
+            o.count('history:name-repeated-in-one-call:' + ('mixed' if len(ds) > 1 else 'equal-copies'))
         key = 'history:%s:%s' % (tag, ' ; '.join(hist))
         after = ('after the constructions %s' % ' ; '.join(hist[:-1])) if k else \
             'as the first construction of its session (earlier sessions of the run use the same names with other dimensions)'
@@ -900,7 +932,9 @@ def check_session(o, steps, m, tag):
             if not isinstance(r, ValueError):
                 o.fail(key, 'Union of %s members %s (name:dim) has the dimensions %s but was not refused with ValueError %s: got %r%s'
                        % (kind, step_str(step), sorted(map(str, ds)), after, r,
-                          ' with member dims %s' % [x.dim for x in _members(r, m)] if not isinstance(r, BaseException) else ''))
+                          ' with member dims %s' % [x.dim for x in _members(r, m)] if not isinstance(r, BaseException) else '')
+                       + (' (members given in ONE call that are equal by name but were created with different dimensions)'
+                          if len({n for n, _ in spec}) < len(spec) else ''))
                 return
             continue
         o.count('history:homogeneous')
@@ -911,11 +945,12 @@ def check_session(o, steps, m, tag):
         lab = {id(x): '%s:%s' % nd for x, nd in zip(objs, spec)}
         got = _labels(_members(r, m), lab)
         gdims = [x.dim for x in _members(r, m)]
-        if got != sorted(lab.values()) or any(g != d for g in gdims) or (r is not None and r.dim != d):
+        # (a name given twice with the same dimension: equal copies, one of them is the member)
+        if got != sorted(set(lab.values())) or any(g != d for g in gdims) or (r is not None and r.dim != d):
             o.fail(key, 'Union of the %s members %s (name:dim) %s returned the members %s of dimensions %s, union dim %s: not the objects given'
                    % (kind, step_str(step), after, got, gdims, getattr(r, 'dim', None)))
             return
-        if not check_shape(o, r, len(objs), m, key, 'Union of %s' % step_str(step)):
+        if not check_shape(o, r, len(set(spec)), m, key, 'Union of %s' % step_str(step)):
             return
 
 
@@ -930,6 +965,16 @@ def history_corpus(o, m):
          ('face', [('c14hP', 3), ('c14hQ', 2)], 'none')],
         [('interior', [('c14hX', None), ('c14hY', None), ('c14hZ', None)], 'nested'), ('interior', [('c14hX', 2), ('c14hY', 2), ('c14hZ', 2)], 'nested'),
          ('interior', [('c14hX', 2), ('c14hY', 2), ('c14hZ', None)], 'nested'), ('interior', [('c14hX', None), ('c14hY', 2), ('c14hZ', 2)], 'nested')],
+        # one name several times INSIDE one family (equal by name, different by dimension): refused; equal copies: accepted
+        [('interior', [('c14hA', 2), ('c14hA', 3)], 'flat'), ('interior', [('c14hA', 3), ('c14hA', 2)], 'flat'),
+         ('interior', [('c14hA', 2), ('c14hA', 2), ('c14hB', 2)], 'flat'), ('interior', [('c14hA', 1), ('c14hA', 2), ('c14hA', 3)], 'none'),
+         ('interior', [('c14hA', 2), ('c14hB', 2), ('c14hA', 3)], 'flat'), ('interior', [('c14hA', 2), ('c14hB', 2), ('c14hA', 3)], 'nested'),
+         ('interior', [('c14hA', 2), ('c14hB', 2), ('c14hA', 3), ('c14hB', 3)], 'bydim'),
+         ('interior', [('c14hA', None), ('c14hB', None), ('c14hA', 2)], 'bydim'), ('interior', [('c14hA', 2), ('c14hB', 2), ('c14hB', 2)], 'bydim')],
+        [('face', [('c14hP', 2), ('c14hP', 3)], 'flat'), ('face', [('c14hP', 2), ('c14hQ', 2), ('c14hP', 3)], 'flat'),
+         ('face', [('c14hP', 2), ('c14hQ', 2), ('c14hP', 3), ('c14hQ', 3)], 'bydim'), ('face', [('c14hP', 3), ('c14hP', 3), ('c14hQ', 3)], 'flat')],
+        [('domain', [('c14hD', 2), ('c14hD', 3)], 'flat'), ('domain', [('c14hD', 2), ('c14hE', 2), ('c14hD', 3)], 'flat'),
+         ('domain', [('c14hD', 3), ('c14hE', 3), ('c14hD', 1), ('c14hE', 1)], 'bydim'), ('domain', [('c14hD', 1), ('c14hE', 1), ('c14hD', 1)], 'none')],
     ]
     for i, s in enumerate(sessions):
         o.evaluations += 1
